@@ -5,7 +5,7 @@ package hyper
 // Contracts for the verifier in /verif (comment-only; see /verif/DESIGN.md).
 
 /*@
-typeinv position by newPosition: self.numBits == uint16(len(self.Index)) * 8 && self.Height <= self.numBits && len(self.Index) < 8192
+typeinv position by newPosition: self.numBits == uint16(len(self.Index)) * 8 && self.Height <= self.numBits
 
 typeinv QueryProof by NewQueryProof: !isnil(self.hasher)
 immutable QueryProof.AuditPath, QueryProof.Key, QueryProof.Value, QueryProof.hasher by NewQueryProof
@@ -20,12 +20,11 @@ func NewQueryProof
 
 func newPosition
   props C02 C12
-  requires len(index) < 8192 && int(height) <= len(index) * 8
+  requires height <= uint16(len(index)) * 8
   ensures result.Height == height && result.numBits == uint16(len(index)) * 8 && len(result.Index) == len(index)
 
 func newRootPosition
   props C02 C12
-  requires indexNumBytes < 8192
   ensures result.Height == indexNumBytes * 8 && len(result.Index) == int(indexNumBytes)
 
 func position.IsLeaf
@@ -34,19 +33,17 @@ func position.IsLeaf
 
 func position.Left
   props C02 C12
-  ensures len(result.Index) == len(p.Index)
   ensures p.Height == 0 ==> result.Height == 0
   ensures p.Height != 0 ==> result.Height == p.Height - 1
 
 func position.Right
   props C02 C12
-  ensures len(result.Index) == len(p.Index)
   ensures p.Height == 0 ==> result.Height == 0
   ensures p.Height != 0 ==> result.Height == p.Height - 1
 
 func position.splitBase
   props C02 C12
-  ensures len(result) == len(p.Index) && fresh(result)
+  ensures len(result) == int(p.numBits / 8) && fresh(result)
 
 func bitSet
   props C02 C12
@@ -126,14 +123,11 @@ func noOp
 
 func pruneToVerify
   props C02 C12
-  requires len(index) < 8192
-  requires len(value) <= len(index) || len(value) >= 8 * len(index)
   ensures result != nil && len(*result) >= 1
 
 func pruneToVerify.traverse
   props C02 C12
   requires ops != nil
-  requires len(pos.Index) == len(index)
   decreases pos.Height
   modifies *ops
   ensures len(*ops) > old(len(*ops))
@@ -145,7 +139,5 @@ func AuditPath.Get
 
 func QueryProof.Verify
   props C02 C12
-  requires len(key) < 8192
-  requires len(p.Value) <= len(key) || len(p.Value) >= 8 * len(key)
   modifies everything
 @*/
